@@ -31,7 +31,11 @@ func addReq(t *testing.T, query string) (int, string, []string) {
 	}
 	b, _ := ioutil.ReadAll(resp.Body)
 	resp.Body.Close()
-	return resp.StatusCode, string(b), callNames(rec.Take())
+	st := resp.StatusCode
+	if resp.Trailer.Get("X-Stream-Error") != "" {
+		st = 500 // streamed error
+	}
+	return st, string(b), callNames(rec.Take())
 }
 
 func TestRegressOnlyHash(t *testing.T) {
